@@ -13,7 +13,7 @@ CLAIMED = {
  "C18": ("Coq theorems (closed under the global context) about a Gallina model of Format: the getSubTree worklist equals the recursive sum over exactly the reachable fibers, the rank-list (level-wise) sums equal the recursive sum over the tree, the fiber formula and the spec defaults; the oracle (defined in Coq, proved to hold of the model for all inputs) is evaluated on the implementation's own numbers and the model is tied to /repo by differential correspondence on every run.",
          "Trusted: Coq kernel, hand-written model coq/Model/Format.v (validated differentially each run), harness. Rank shapes are inputs.", TECH),
  "C01": ("Coq theorems over all states and all finite histories of a 20-operation model of the public mutators and accessors (Model/Store.v): every step keeps every fiber strictly sorted with uniform leaf depth (C01_step_wf, C01_history_wf), a refused step leaves the state identical (C01_reject_atomic), constructors start well-formed, and the oracle evaluated on the implementation's snapshots holds of the model for every history (C01_model_meets_spec). Tied to /repo by per-step differential comparison of raw tree snapshots, rank lists and outcomes.",
-         "Trusted: Coq kernel; the hand model of the mutators (operation set listed in the evidence; since round 3 it includes extend, fiber-valued append/__setitem__ and fiber <<=; populate loops are run through C05's model with C01's oracle; fiber in-place arithmetic is C11's); harness. updateCoords is modelled for injective affine maps (documented domain).", TECH),
+         "Trusted: Coq kernel; the hand model of the mutators (operation set listed in the evidence; since round 3 it includes extend, fiber-valued append/__setitem__ and fiber <<=; populate loops are run through C05's model with C01's oracle; fiber in-place arithmetic is C11's); harness. updateCoords is modelled for injective maps given as an affine function or a table (documented domain); since round 6 the op set also has item assignment of a CoordPayload carrying both a coordinate and a fiber (OSetItemCF).", TECH),
  "C03": ("Coq theorems for all well-formed states: getPayload returns the map's value and leaves the whole state unchanged, a prefix read returns the sub-fiber holding exactly the values under it, getPayloadRef(+write) changes the map at that point and at no other and keeps the tree well-formed, read-only accessors are pure, a legal start_pos never changes the position found, position lookup is the index of the coordinate. The replay-on-a-reference-map oracle is evaluated on the implementation's observations; that the model satisfies that oracle is checked per case, not proved (partial).",
          "Trusted: Coq kernel; hand model coq/Model/Store.v; harness. C03_model_meets_spec is not proved (stated as _partial in Properties/C03.v).", TECH),
  "C19": ("Coq theorems for all coordinate lists, nests and batchings: two-finger = merge comparison steps, skip-ahead = matches + maximal same-side runs, leader-follower = elements presented, totals independent of batching (no comparison spans two fibers), rows emitted by Fiber.__and__ = presented elements; leader-follower STYLE intersections (Fiber.intersection style=leader-follower) count one attempt per presented leader element under every batching (C19_leader_follower_style, unconditional); swap-count proved per merge and per round loop for integer latency (tree-level and unbounded latency: partial, covered by oracle/correspondence). Oracle evaluated on the implementation's counts; model tied to /repo by differential comparison of trace rows and counts.",
